@@ -34,25 +34,31 @@ var ffiFuncs = map[string]reflect.Value{
 	"errors.New":   rv(errors.New),
 	"errors.Is":    rv(errors.Is),
 
-	"strings.Join":        rv(strings.Join),
-	"strings.Replace":     rv(strings.Replace),
-	"strings.ReplaceAll":  rv(strings.ReplaceAll),
-	"strings.Repeat":      rv(strings.Repeat),
-	"strings.HasPrefix":   rv(strings.HasPrefix),
-	"strings.HasSuffix":   rv(strings.HasSuffix),
-	"strings.TrimPrefix":  rv(strings.TrimPrefix),
-	"strings.TrimSuffix":  rv(strings.TrimSuffix),
-	"strings.TrimSpace":   rv(strings.TrimSpace),
-	"strings.Compare":     rv(strings.Compare),
-	"strings.Contains":    rv(strings.Contains),
-	"strings.Split":       rv(strings.Split),
-	"strings.ToUpper":     rv(strings.ToUpper),
-	"strings.ToLower":     rv(strings.ToLower),
-	"strings.NewReplacer": rv(strings.NewReplacer),
-	"strings.Index":       rv(strings.Index),
-	"strings.Count":       rv(strings.Count),
-	"strings.Fields":      rv(strings.Fields),
-	"strings.Title":       rv(strings.Title),
+	"strings.Join":         rv(strings.Join),
+	"strings.Replace":      rv(strings.Replace),
+	"strings.ReplaceAll":   rv(strings.ReplaceAll),
+	"strings.Repeat":       rv(strings.Repeat),
+	"strings.HasPrefix":    rv(strings.HasPrefix),
+	"strings.HasSuffix":    rv(strings.HasSuffix),
+	"strings.TrimPrefix":   rv(strings.TrimPrefix),
+	"strings.TrimSuffix":   rv(strings.TrimSuffix),
+	"strings.TrimSpace":    rv(strings.TrimSpace),
+	"strings.Compare":      rv(strings.Compare),
+	"strings.Contains":     rv(strings.Contains),
+	"strings.Split":        rv(strings.Split),
+	"strings.ToUpper":      rv(strings.ToUpper),
+	"strings.ToLower":      rv(strings.ToLower),
+	"strings.NewReplacer":  rv(strings.NewReplacer),
+	"strings.Index":        rv(strings.Index),
+	"strings.TrimLeft":     rv(strings.TrimLeft),
+	"strings.TrimRight":    rv(strings.TrimRight),
+	"strings.Trim":         rv(strings.Trim),
+	"strings.LastIndex":    rv(strings.LastIndex),
+	"strings.EqualFold":    rv(strings.EqualFold),
+	"strings.ContainsRune": rv(strings.ContainsRune),
+	"strings.Count":        rv(strings.Count),
+	"strings.Fields":       rv(strings.Fields),
+	"strings.Title":        rv(strings.Title),
 
 	"strconv.ParseFloat":  rv(strconv.ParseFloat),
 	"strconv.ParseInt":    rv(strconv.ParseInt),
